@@ -3,11 +3,11 @@
 // through remap.map_from, and must leave every other field alone.
 //
 // IndexRemapper::map_from is cut and replaced by an injective function f chosen by a symbolic key K:
-//     f(0) = 0,  f(K) = K,  f(x) = x ^ K otherwise       (a bijection on int for every K)
-// which mirrors the one property of the real map_from that callers rely on: an index that was given no mapping (in
-// particular the "no entity" index 0) stays what it is; K == 0 is the identity remapper.  The oracle below is written
-// from the class definitions (interrogate*.h), field by field: a field forgotten in remap_indices - or a non-index
-// field remapped by mistake - fails for some K.
+//     f(x) = x rotated left by K bits, K in 1..31       (a bijection on the 32-bit indices, f(0) = 0)
+// which mirrors the one property of the real map_from that callers rely on: the "no entity" index 0, which never has
+// a mapping, stays 0.  (Pure bit wiring: an f built from x ^ K made the 7000-variable SAT instance take 4 minutes.)
+// The oracle below is written from the class definitions (interrogate*.h), field by field: a field forgotten in
+// remap_indices - or a non-index field remapped by mistake - fails.
 #include "verif.h"
 #include "interrogateType.h"
 #include "interrogateFunction.h"
@@ -29,7 +29,7 @@
 static int g_key;
 static const IndexRemapper *g_remap;       // every call must go to the remapper that was passed in
 static bool g_foreign;
-static int f(int x) { return (x == 0 || x == g_key) ? x : (x ^ g_key); }
+static int f(int x) { unsigned u = (unsigned)x; return (int)((u << g_key) | (u >> (32 - g_key))); }
 int IndexRemapper::map_from(int from) const {
   if (this != g_remap) g_foreign = true;
   return f(from);
@@ -58,6 +58,7 @@ static bool str_is(const std::string &s, char c) { return s.size() == 1 && s[0] 
 
 static IndexRemapper *start() {
   g_key = nondet_int();
+  ASSUME(g_key >= 1 && g_key <= 31);
   g_foreign = false;
   IndexRemapper *r = new IndexRemapper;
   g_remap = r;
